@@ -199,7 +199,7 @@ impl Position {
         // TODO: should this return an error if no BBox?
         if let Some(bbox) = self.to_bbox() {
             match element.name.as_str() {
-                "" | "rect" | "use" | "image" | "svg" | "foreignObject" => {
+                "" | "rect" | "box" | "point" | "use" | "image" | "svg" | "foreignObject" => {
                     let width = bbox.width();
                     let height = bbox.height();
                     let (x1, y1) = bbox.locspec(LocSpec::TopLeft);
